@@ -542,6 +542,16 @@ def gen_retime_while_other_busy(entry, factor, idx):
             'retime_bound': {'entry': entry, 'factor': factor, 'delta': 1.0}}
 
 
+def gen_cancel_mid(kind, idx, permanent=False):
+    """CmdPeriod.run() in the middle of a program, on a clock that keeps running (SystemClock, AppClock, a permanent
+    TempoClock): what was pending never runs, what is scheduled afterwards does"""
+    return {'name': '%s-cmdperiod-then-sched' % kind, 'clock': kind, 'index': idx, 'tempo': [1, 1], 'permanent': permanent,
+            'tasks': {'1': {'results': [['delta', 1, 64], ['none']]}, '2': {'results': [['none']]}, '3': {'results': [['none']]}},
+            'threads': [[['sched', 1, 1, 4], ['sched', 2, 1, 4], ['sleep', 30], ['cmdperiod'], ['sched', 3, 1, 16]]],
+            'final': 'clear', 'wait_counts': {'3': 1}, 'before_final': 5.0, 'after_final': 0.3,
+            'cancel_mid': [1, 2], 'lower_bound': True}
+
+
 def gen_cancel_via(kind, via, idx):
     """clear() issued from a task of another clock: nothing that was pending may run after it returned"""
     return {'name': '%s-clear-from-%s' % (kind, via), 'clock': kind, 'index': idx, 'tempo': [2, 1],
@@ -661,9 +671,12 @@ def gen_tempo_ahead(idx):
             'final': 'clear', 'wait_for': [1], 'before_final': 1.2, 'after_final': 0.05, 'tempo_ahead': True}
 
 
-def gen_cancel(kind, idx, how):
-    """clear / stop with pending tasks: none of them may run afterwards"""
-    return {'name': '%s-%s' % (kind, how), 'clock': kind, 'index': idx, 'tempo': [2, 1],
+def gen_cancel(kind, idx, how, permanent=False):
+    """every clearing / stopping entry point -- clear(), stop(), TempoClock.stop_all(), CmdPeriod.run() (documented to
+    clear ALL clocks' queues and to stop the non permanent TempoClocks) -- with pending tasks, on permanent and non
+    permanent TempoClocks: none of the pending tasks may run afterwards, the queue is empty when the call returns"""
+    return {'name': '%s-%s%s' % (kind, how, '-permanent' if permanent else ''), 'clock': kind, 'index': idx, 'tempo': [2, 1],
+            'permanent': permanent,
             'tasks': {'1': {'results': [['none']]}, '2': {'results': [['raise']]}, '3': {'results': [['none']]}},
             'threads': [[['sched', 1, 1, 8], ['sched', 2, 1, 8]], [['sched', 3, 3, 16]]],
             'final': how, 'before_final': 0.03, 'after_final': 0.3, 'cancel': True}
@@ -692,6 +705,16 @@ def program(ctx, rng):
         p1.append(gen_cancel(kind, idx, 'clear'))
     idx += 1
     p1.append(gen_cancel('tempo', idx, 'stop'))
+    for how, perm in (('cmdperiod', True), ('cmdperiod', False), ('stop_all', False), ('stop_all', True), ('clear', True)):
+        idx += 1
+        p1.append(gen_cancel('tempo', idx, how, permanent=perm))
+    for kind in ('sys', 'app'):
+        idx += 1
+        p1.append(gen_cancel(kind, idx, 'cmdperiod'))
+        idx += 1
+        p1.append(gen_cancel_mid(kind, idx))
+    idx += 1
+    p1.append(gen_cancel_mid('tempo', idx, permanent=True))
     idx += 1
     p1.append(gen_tempo_ahead(idx))
     cross, idx = gen_cross_all(idx)
@@ -966,13 +989,22 @@ def e2e(sc, r):
             v.append(('no_oversleep', 'task 2 beats ahead at tempo 1; tempo set to 8 after 100 ms (due ~0.34 s): %s'
                       % ('ran %.3f s after scheduling' % (ran[0] - t0[0]) if ran else 'did not run within 1.3 s')))
     if sc.get('cancel'):
-        if sc['final'] == 'stop' and r.get('alive'):
-            v.append(('clear_stop_cancel_all', 'clock thread still alive after stop'))
+        if r.get('stops') and r.get('alive'):
+            v.append(('clear_stop_cancel_all', '%s: clock thread still alive after %s' % (sc['name'], sc['final'])))
+        if r.get('empty_after_final') is False and not (sc['clock'] == 'app' and sc['final'] == 'stop'):
+            # (AppClock._stop ends the thread and leaves the queue as it is: nothing in it can run any more)
+            v.append(('clear_stop_cancel_all', '%s: the queue still holds tasks when %s had returned' % (sc['name'], sc['final'])))
         fd = r.get('final_done_at')
         late = sorted(a[0] for a in aw if fd is not None and a[1] > fd and a[0] != 0)      # 0 = the responsiveness probe
         if late:
             v.append(('clear_stop_cancel_all', 'tasks %s ran after %s() had returned' % (late, sc['final'])))
-    if r.get('alive') is False and sc.get('final') != 'stop' and not sc.get('expect_dead'):
+    if sc.get('cancel_mid'):
+        done = [s[5] for s in r['scheds'] if s[2] == 'clear']
+        late = sorted(set(a[0] for a in aw if done and a[1] > done[0] and a[0] in sc['cancel_mid']))
+        if late:
+            v.append(('clear_stop_cancel_all', '%s: tasks %s, pending when CmdPeriod.run() was called, ran after it had returned'
+                      % (sc['name'], late)))
+    if r.get('alive') is False and not r.get('stops', sc.get('final') == 'stop') and not sc.get('expect_dead'):
         v.append(('exception_isolated', 'the clock thread died'))
     return v
 
@@ -1127,6 +1159,9 @@ def search(ctx, failures):
         scs.append(gen_cancel(kind, idx, 'clear'))
     idx += 1
     scs.append(gen_tempo_ahead(idx))
+    for how, perm in (('cmdperiod', True), ('cmdperiod', False), ('stop_all', True)):
+        idx += 1
+        scs.append(gen_cancel('tempo', idx, how, permanent=perm))
     cross, idx = gen_cross_all(idx, nolock=True)
     scs.extend(cross)
     for kind, where in (('tempo', 'sys'), ('tempo', 'aux'), ('tempo', 'same'), ('sys', 'aux'), ('sys', 'same')):
